@@ -18,6 +18,7 @@ import (
 type fstate struct {
 	durable []byte
 	pending []Write
+	absent  bool // no durable version: the file exists only if one of its pending replacements is on disk
 }
 
 type Disk struct {
@@ -45,7 +46,10 @@ func DiskFromDir(root string) (*Disk, error) {
 }
 
 func overlay(base []byte, w Write, n int) []byte {
-	// first n bytes of write w applied over base; a truncation cuts
+	// first n bytes of write w applied over base; a truncation cuts; an atomic replacement replaces
+	if w.Whole {
+		return clone(w.Data)
+	}
 	if w.Trunc {
 		if int(w.Off) < len(base) {
 			return base[:w.Off:w.Off]
@@ -69,7 +73,7 @@ func (d *Disk) Apply(ev *Event) {
 	for _, w := range ev.Writes {
 		f := d.files[w.File]
 		if f == nil {
-			f = &fstate{durable: []byte{}}
+			f = &fstate{durable: []byte{}, absent: w.Whole}
 			d.files[w.File] = f
 		}
 		f.pending = append(f.pending, w)
@@ -93,13 +97,16 @@ func (d *Disk) Apply(ev *Event) {
 func (d *Disk) snapshot() *Disk {
 	c := NewDisk()
 	for n, f := range d.files {
-		c.files[n] = &fstate{durable: f.durable, pending: append([]Write{}, f.pending...)}
+		c.files[n] = &fstate{durable: f.durable, pending: append([]Write{}, f.pending...), absent: f.absent}
 	}
 	return c
 }
 
 // class of a file: tx, commit, val, aht, index
 func classOf(file string) string {
+	if strings.HasPrefix(filepath.Base(file), "TIMESTAMP") {
+		return "meta" // index timestamp files: written by rename, not through an appendable
+	}
 	top := strings.Split(filepath.ToSlash(file), "/")[0]
 	if strings.HasPrefix(top, "val_") {
 		return "val"
@@ -107,7 +114,7 @@ func classOf(file string) string {
 	return top
 }
 
-var classes = []string{"tx", "commit", "val", "aht", "index"}
+var classes = []string{"tx", "commit", "val", "aht", "index", "meta"}
 
 // A policy decides, per file, how many pending writes reached the disk (k full writes and t bytes
 // of the next one). It is a short string so that an image is reproducible from (point, policy).
@@ -177,7 +184,7 @@ func (d *Disk) Image(policy string) map[string][]byte {
 		case prng != nil:
 			if len(f.pending) > 0 {
 				k = prng.Intn(len(f.pending) + 1)
-				if k < len(f.pending) && !f.pending[k].Trunc && len(f.pending[k].Data) > 0 && prng.Intn(2) == 0 {
+				if k < len(f.pending) && !f.pending[k].Trunc && !f.pending[k].Whole && len(f.pending[k].Data) > 0 && prng.Intn(2) == 0 {
 					t = prng.Intn(len(f.pending[k].Data))
 				}
 			}
@@ -190,6 +197,9 @@ func (d *Disk) Image(policy string) map[string][]byte {
 		}
 		if t > 0 {
 			b = overlay(b, f.pending[k], t)
+		}
+		if f.absent && k == 0 {
+			continue // the rename never reached the disk
 		}
 		img[n] = b
 	}
